@@ -113,9 +113,17 @@ func main() {
 		for _, id := range sortedKeys(props) {
 			pd := props[id]
 			x := pr{ID: id, Explanation: pd.Explanation, NotCovered: pd.NotCovered}
+			var extra []string
 			for _, rid := range pd.Rules {
 				rd := rules[rid]
 				x.Rules = append(x.Rules, map[string]interface{}{"id": rid, "min": rd.Min, "doc": rd.Doc})
+				// rules assigned to the property after its explanation was written
+				if !strings.Contains(pd.Explanation, rid) {
+					extra = append(extra, "("+rid+") "+rd.Doc)
+				}
+			}
+			if len(extra) > 0 {
+				x.Explanation = strings.TrimRight(x.Explanation, " .") + ". Further structural clauses decided for this property: " + strings.Join(extra, "; ") + "."
 			}
 			out = append(out, x)
 		}
